@@ -47,6 +47,19 @@ type Config struct {
 	// timer's instant (fewer than 1000 ticks per run), so every timer due before a tick's end has fired and its
 	// goroutine has run to its next durable block before the scheduler looks.
 	TickEpsilon time.Duration
+	// S2CFrameWise makes every s2c delivery end at the latest at the end of the first undelivered frame (reply or
+	// push), so that a client never receives two frames in one step. Scenarios whose client code reacts to pushes on
+	// several goroutines (invalidation-driven wake-ups) need it for determinism. Off by default.
+	S2CFrameWise bool
+	// GroupResume releases all goroutines parked under one identical identity with a single resume event. Goroutines
+	// with equal identities are interchangeable by definition, but which of them arrived first is decided by the Go
+	// runtime: releasing "the i-th" would leak that order into the execution (several per-key goroutines of one lock
+	// holder retrying through a dead connection). Off by default.
+	GroupResume bool
+	// NoPayloadHash leaves the content hash out of the c2s log lines (lengths stay). For code under test whose request
+	// bytes depend on Go map iteration order while everything else does not; the scenario then logs the requests in a
+	// canonical form itself.
+	NoPayloadHash bool
 }
 
 // Link ties the client end and the server end of one connection.
@@ -64,6 +77,8 @@ type Link struct {
 	S2CCuts   int // deliveries that ended inside a frame
 	Delivered int
 	lastPending int
+	frameIdx    int // S2CFrameWise: first frame of S.OutLog that is not completely delivered
+	frameEnd    int // S2CFrameWise: cumulative size of the frames before frameIdx plus that frame
 	AcceptedAt         time.Time
 	DeliveryLog        []Delivery // cumulative bytes delivered to the client after each s2c event
 	ClientClosedAt     time.Time // when the server side noticed that the client had closed the connection
@@ -508,6 +523,32 @@ func (s *Sim) enabled() []Event {
 		}
 		return parked[i].seq < parked[j].seq
 	})
+	if s.Cfg.GroupResume {
+		for i := 0; i < len(parked); {
+			j := i
+			for j < len(parked) && parked[j].ID == parked[i].ID {
+				j++
+			}
+			group := parked[i:j]
+			evs = append(evs, Event{Kind: "resume", Key: group[0].ID, Weight: w.Resume, Do: func() {
+				s.mu.Lock()
+				for _, p := range group {
+					for k, q := range s.parked {
+						if q == p {
+							s.parked = append(s.parked[:k], s.parked[k+1:]...)
+							break
+						}
+					}
+				}
+				s.mu.Unlock()
+				for _, p := range group {
+					close(p.ch)
+				}
+			}})
+			i = j
+		}
+		parked = nil
+	}
 	for i, p := range parked {
 		p := p
 		key := p.ID
@@ -664,7 +705,11 @@ func (s *Sim) doC2S(l *Link) {
 		max = 1 + s.R.IntN(n-1)
 	}
 	b := l.C.TakeWritten(max)
-	s.logf("  c2s c%d %d bytes %x", l.ID, len(b), shortHash(b))
+	if s.Cfg.NoPayloadHash {
+		s.logf("  c2s c%d %d bytes", l.ID, len(b))
+	} else {
+		s.logf("  c2s c%d %d bytes %x", l.ID, len(b), shortHash(b))
+	}
 	s.W.Step = s.Step
 	s.W.Feed(l.S, b)
 }
@@ -682,6 +727,15 @@ func (s *Sim) doS2C(l *Link) {
 		}
 		l.S2CCuts++
 		s.Stats["s2c.partial"]++
+	}
+	if s.Cfg.S2CFrameWise {
+		for l.frameEnd <= l.Delivered && l.frameIdx < len(l.S.OutLog) {
+			l.frameEnd += l.S.OutLog[l.frameIdx].Bytes
+			l.frameIdx++
+		}
+		if rest := l.frameEnd - l.Delivered; rest > 0 && m > rest {
+			m = rest
+		}
 	}
 	if l.CutAfter >= 0 && m >= l.CutAfter {
 		m = l.CutAfter
@@ -1062,6 +1116,30 @@ func (s *Sim) IsDown() bool {
 	s.mu.Lock()
 	defer s.mu.Unlock()
 	return s.down
+}
+
+// LockWaiterIDs returns the identities of all goroutines waiting for a scheduler-granted locker, held or not.
+func (s *Sim) LockWaiterIDs() []string {
+	s.mu.Lock()
+	defer s.mu.Unlock()
+	var out []string
+	for _, l := range s.lockers {
+		for _, w := range l.waiters {
+			out = append(out, w.id)
+		}
+	}
+	return out
+}
+
+// ParkedIDs returns the identities of the goroutines waiting at yield points (unsorted copy).
+func (s *Sim) ParkedIDs() []string {
+	s.mu.Lock()
+	defer s.mu.Unlock()
+	out := make([]string, 0, len(s.parked))
+	for _, p := range s.parked {
+		out = append(out, p.ID)
+	}
+	return out
 }
 
 // ParkedCount returns the number of goroutines waiting at yield points.
